@@ -356,6 +356,10 @@ func lastInstr(b *ssa.BasicBlock) ssa.Instruction {
 // selected by pred (i.e. site is unreachable once those edges are removed). Also returns
 // whether the site is reachable at all and how many edges pred selected.
 func MustCross(site ssa.Instruction, pred EdgePred) (guarded bool, nsel int) {
+	return mustCrossDepth(site, pred, 2)
+}
+
+func mustCrossDepth(site ssa.Instruction, pred EdgePred, depth int) (guarded bool, nsel int) {
 	fn := site.Parent()
 	sel := map[Edge]bool{}
 	for _, e := range IfEdges(fn) {
@@ -364,12 +368,19 @@ func MustCross(site ssa.Instruction, pred EdgePred) (guarded bool, nsel int) {
 			sel[e] = true
 			continue
 		}
-		// the edge may stand for conditions decided inside a boolean helper / a boolean variable
-		impliedConds(c, t, 2, func(c2 ssa.Value, t2 bool) {
+		if depth <= 0 {
+			continue
+		}
+		// the edge may stand for conditions decided inside a boolean variable …
+		impliedConds(c, t, depth, func(c2 ssa.Value, t2 bool) {
 			if !sel[e] && pred(e, c2, t2) {
 				sel[e] = true
 			}
 		})
+		// … or inside a helper whose result it tests: continue the cut into the helper
+		if !sel[e] && helperEdgeSelected(e, c, t, pred, depth) {
+			sel[e] = true
+		}
 	}
 	r := reach(fn.Blocks[0], func(e Edge) bool { return sel[e] })
 	return !r[site.Block()], len(sel)
